@@ -59,7 +59,7 @@ pub fn fuzz_target(name: &str, data: &[u8]) -> Result<(), String> {
 pub fn fuzz_property(name: &str, msg: &str) -> &'static str {
     match name {
         "fz_kernels" => {
-            if msg.contains("slab") || msg.contains("pair borrow") || msg.contains("logical symbol") {
+            if msg.contains("pair borrow") || msg.contains("not the destination") || msg.contains("was accepted") || msg.contains("count ") {
                 "C12"
             } else {
                 "C11"
